@@ -340,6 +340,17 @@ func (w *world) live(ctx string) bool {
 		if !strings.Contains(d, "threadedListenForSyncRequests") && w.S != nil {
 			replay["goroutines"] = dumpExcerpt(d)
 			w.r.Violationf("liveness:sync-accept-loop-gone", replay, "sync request for authorized device %d is not answered and no goroutine of the process is in threadedListenForSyncRequests any more: the listening socket is open, nobody accepts – permanent (after: %s)", p0.ID, ctx)
+		} else if s1 := acceptLoopState(d); s1 != "accepting" {
+			// the accept loop exists but is not in Accept: permanent only if a second look 3 s later finds it parked at the same place
+			time.Sleep(3 * time.Second)
+			d2 := stacks()
+			if s2 := acceptLoopState(d2); s2 == s1 {
+				replay["goroutines"] = dumpExcerpt(d2)
+				replay["accept_loop"] = s2
+				w.r.Violationf("liveness:sync-accept-loop-stalled", replay, "sync request for authorized device %d is not answered and in two goroutine dumps 3 s apart the goroutine that accepts sync connections is %q instead of waiting in Accept: no sync request is served any more (after: %s)", p0.ID, s2, ctx)
+			} else {
+				w.r.Inconc("liveness sync timed out after: " + ctx)
+			}
 		} else {
 			w.r.Inconc("liveness sync timed out after: " + ctx)
 		}
@@ -448,6 +459,30 @@ func listenerState(d string) string {
 			}
 			hdr := strings.SplitN(strings.TrimLeft(blk, "\n"), "\n", 2)[0]
 			return "parked: " + hdr
+		}
+	}
+	return "gone"
+}
+
+// acceptLoopState: where the goroutine that accepts sync connections is.
+func acceptLoopState(d string) string {
+	for _, blk := range strings.Split(d, "\n\n") {
+		if strings.Contains(blk, "threadedListenForSyncRequests") {
+			if strings.Contains(blk, ".Accept(") || strings.Contains(blk, ".accept(") {
+				return "accepting"
+			}
+			lines := strings.Split(strings.TrimLeft(blk, "\n"), "\n")
+			st := lines[0]
+			if i, j := strings.Index(st, "["), strings.Index(st, "]"); i >= 0 && j > i {
+				st = st[i+1 : j] // the wait state without the goroutine number
+				if k := strings.Index(st, ","); k >= 0 {
+					st = st[:k] // ... and without "N minutes"
+				}
+			}
+			if len(lines) > 1 {
+				st += " at " + strings.TrimSpace(lines[1])
+			}
+			return "parked: " + st
 		}
 	}
 	return "gone"
